@@ -27,10 +27,10 @@ std::vector<size_t> bool_offsets(const typename T::Ref& r)
 
 // Decode `payload` with the library, re-encode, and compare byte for byte. Returns "" if fine, "rejected" if the decoder refused.
 template <class T>
-std::string reencode_check(const Bytes& payload, Agg& a, const std::string& cid, const char* origin)
+std::string reencode_check(const Bytes& payload, Agg& a, const std::string& cid, const char* origin, const Bytes* framed_as = nullptr)
 {
     const std::string nm = T::name;
-    Bytes blob = T::framed ? ref::frame(payload) : payload;
+    Bytes blob = framed_as ? *framed_as : T::framed ? ref::frame(payload) : payload;
     typename T::Lib v;
     a.count("transitions");
     try
@@ -114,6 +114,31 @@ void structured_value(Agg& a, Chooser& c, const std::string& cid)
     std::string res = reencode_check<T>(payload, a, cid, "structured");
     if (res == "rejected")
         a.violation(std::string(T::name) + ".wellformed_foreign_blob_rejected", std::string(T::name) + " decoder refuses a well-formed foreign blob", cid);
+    // The same payload in frames only a foreign writer produces: a length prefix that does not match the stream (it counts
+    // only the bytes the writer knew about, or is off by one) and other compression levels. The prefix 0 means "no data" to
+    // the library and is left out. The payload is what the zlib stream holds; if the decoder accepts the blob at all, the
+    // re-encoded payload must be that, byte for byte.
+    if (T::framed && res.empty() && payload.size() > 1)
+    {
+        const Bytes z = ref::deflate_only(payload);
+        const long long n = (long long)payload.size();
+        int k = 0;
+        for (long long hdr : {n - 1, n - 9 > 0 ? n - 9 : 1, 1ll, n + 1, n + 1000})
+        {
+            ++k;
+            if (hdr == n) continue;
+            Bytes blob = ref::frame_raw((int32_t)hdr, z);
+            a.count("evaluations");
+            reencode_check<T>(payload, a, cid + ":hdr" + std::to_string(k), "foreign_prefix", &blob);
+        }
+        for (int level : {0, 1, 9})
+        {
+            Bytes blob = ref::frame(payload, level);
+            a.count("evaluations");
+            std::string r2 = reencode_check<T>(payload, a, cid + ":z" + std::to_string(level), "foreign_level", &blob);
+            if (r2 == "rejected") a.violation(std::string(T::name) + ".wellformed_foreign_blob_rejected", std::string(T::name) + " decoder refuses a well-formed foreign blob compressed at zlib level " + std::to_string(level), cid + ":z" + std::to_string(level));
+        }
+    }
 }
 
 // small base payloads for the byte-mutation half (<= 128 bytes each)
